@@ -93,9 +93,13 @@ def skipped(rel, skip_names):
     return any(p in skip_names or p.startswith(".") or p.startswith("_") for p in parts)
 
 
-def expected(before, flags, sub):
-    """expected tree after the run, as path -> ('same',) | ('content', bytes) | ('absent',)"""
+def expected(before, flags, sub, as_built=False):
+    """expected tree after the run, as path -> ('same',) | ('content', bytes) | ('absent',).
+    The property counts `vendor` and `node_modules` among the skipped directories whatever else is named; the command
+    treats them as the default VALUE of --skip-dirs, which a given list replaces (known finding F39): as_built=True"""
     skip_names = set(flags.get("skip", ["vendor", "node_modules"]))
+    if not as_built:
+        skip_names |= {"vendor", "node_modules"}
     exp = {}
     for rel, (content, mt) in before.items():
         exp[rel] = ("same",)
@@ -232,6 +236,14 @@ def run(chk):
                     chk.count("run")
                     model_cases.append(model_case(before, after, flags, sub))
                     why = compare(before, after, exp)
+                    if why and "skip" in flags and not compare(before, after, expected(before, flags, sub, as_built=True)):
+                        # the only deviation: vendor / node_modules were processed because the given list replaced them
+                        for kf in common.load_known():
+                            if kf["property"] == "C18" and kf["id"] == "F39" and kf["status"] == "open":
+                                if kf not in chk.known_seen:
+                                    chk.known_seen.append(kf)
+                                chk.count("known-F39-skip-dirs-replaces-defaults")
+                                why = None
                     if rc_ != 0 and not why:
                         why = "goht generate exited with status %d" % rc_
                     if why:
